@@ -146,6 +146,17 @@ func canonBinary(inner string) string {
 	if (op == "<<" || op == ">>") && b == "0" {
 		return a // shift by zero
 	}
+	if k, isK := new(big.Int).SetString(b, 10); op == ">>" && isK && k.IsInt64() && k.Int64() < 64 && len(a) > 2 && a[0] == '(' && matchParen(a, 0) == len(a)-1 {
+		// (x & M) >> k  ==  (x >> k) & (M >> k)
+		if ands := operandsOf(a, "&"); len(ands) == 2 {
+			for i, m := range ands {
+				if mv, isM := new(big.Int).SetString(m, 10); isM && mv.Sign() >= 0 {
+					mv.Rsh(mv, uint(k.Int64()))
+					return canonBinary(canonBinary(ands[1-i]+">>"+b) + "&" + mv.String())
+				}
+			}
+		}
+	}
 	if id, ac := acIdentity[op]; ac {
 		var ops []string
 		for _, x := range []string{a, b} {
@@ -242,4 +253,125 @@ func operandsOf(x, op string) []string {
 	}
 	parts = append(parts, inner[last:])
 	return parts
+}
+
+// expandSummaries replaces, in an E7 term, every application  name(args)  or
+// name(args)#k  of a helper whose result term is given purely in terms of its
+// parameters ($0, $1, ...) by that term with the arguments substituted.  Both
+// the reconstructed and the spec term are compared in this expanded form, so
+// that a helper inlined by hand into its caller (or a block extracted into the
+// helper) compares equal: the helper's own term is still checked on its own
+// where the helper exists.
+func expandSummaries(s string, sums map[string]map[int]string, depth int) string {
+	if depth > 6 || len(sums) == 0 {
+		return s
+	}
+	var out strings.Builder
+	for i := 0; i < len(s); {
+		ch := s[i]
+		if ch == '"' {
+			j := i + 1
+			for j < len(s) && s[j] != '"' {
+				if s[j] == '\\' {
+					j++
+				}
+				j++
+			}
+			if j >= len(s) {
+				j = len(s) - 1
+			}
+			out.WriteString(s[i : j+1])
+			i = j + 1
+			continue
+		}
+		isStart := (ch >= 'a' && ch <= 'z') || (ch >= 'A' && ch <= 'Z') || ch == '_'
+		if !isStart || (i > 0 && (isWordChar(s[i-1]) || s[i-1] == '.' || s[i-1] == '-' || s[i-1] == '$')) {
+			out.WriteByte(ch)
+			i++
+			continue
+		}
+		j := i
+		for j < len(s) && isWordChar(s[j]) {
+			j++
+		}
+		name := s[i:j]
+		res, known := sums[name]
+		if !known || j >= len(s) || s[j] != '(' {
+			out.WriteString(name)
+			i = j
+			continue
+		}
+		e := matchParen(s, j)
+		if e < 0 {
+			out.WriteString(name)
+			i = j
+			continue
+		}
+		idx, end := 0, e+1
+		if end+1 < len(s) && s[end] == '#' && s[end+1] >= '0' && s[end+1] <= '9' {
+			idx = int(s[end+1] - '0')
+			end += 2
+		}
+		body, ok := res[idx]
+		if !ok {
+			out.WriteString(s[i:end])
+			i = end
+			continue
+		}
+		var args []string
+		if inner := s[j+1 : e]; inner != "" {
+			for _, a := range splitTopAll(inner) {
+				args = append(args, expandSummaries(a, sums, depth))
+			}
+		}
+		var sub strings.Builder
+		for k := 0; k < len(body); k++ {
+			if body[k] == '$' && k+1 < len(body) && body[k+1] >= '0' && body[k+1] <= '9' && (k+2 >= len(body) || body[k+2] < '0' || body[k+2] > '9') {
+				n := int(body[k+1] - '0')
+				if n < len(args) {
+					sub.WriteString(args[n])
+					k++
+					continue
+				}
+			}
+			sub.WriteByte(body[k])
+		}
+		out.WriteString(expandSummaries(sub.String(), sums, depth+1))
+		i = end
+	}
+	return out.String()
+}
+
+func isWordChar(c byte) bool {
+	return c == '_' || (c >= 'a' && c <= 'z') || (c >= 'A' && c <= 'Z') || (c >= '0' && c <= '9')
+}
+
+// splitTopAll splits at top-level commas, counting (), [] and {}.
+func splitTopAll(s string) []string {
+	var out []string
+	depth, start, inq := 0, 0, false
+	for i := 0; i < len(s); i++ {
+		switch s[i] {
+		case '\\':
+			if inq {
+				i++
+			}
+		case '"':
+			inq = !inq
+		case '(', '[', '{':
+			if !inq {
+				depth++
+			}
+		case ')', ']', '}':
+			if !inq {
+				depth--
+			}
+		case ',':
+			if !inq && depth == 0 {
+				out = append(out, s[start:i])
+				start = i + 1
+			}
+		}
+	}
+	return append(out, s[start:])
 }
